@@ -44,21 +44,47 @@ def mentions_draw(name, rngp):
                               or (s[0] == "op" and s[1] == name and any(mentions(a, rngp) for a in s[2])))
 
 
+def fresh_draw_elements(P, f, v, rt, rng_arg):
+    """every element of the vector rt is its own `Field::random(caller's rng)` — the draw is evaluated once per element: in the
+    closure of `repeat_with(..)` / `.map(..)`, or in the body of the loop that pushes it (a draw hoisted out of the traversal and
+    pushed n times is one sample repeated)"""
+    from ..seq import _is_empty_ctor
+    is_draw = lambda x: is_call(x, name="random") and "Field" in x[1] and len(x[2]) == 1 and base_of(x[2][0]) == ("arg", rng_arg)
+    t = rt
+    if is_call(t, name="collect") and t[2]:
+        x = t[2][0]
+        while is_call(x) and x[1].rsplit("::", 1)[-1] in ("take", "by_ref") and x[2]:
+            x = x[2][0]
+        if is_call(x, name="repeat_with") and len(x[2]) == 1:
+            body = apply_callable(P, x[2][0], [])
+            return body is not None and is_draw(body)
+        m = mapping_of(P, f, v, t)
+        # the per-element closure of a map: evaluated once per element by construction
+        return bool(m) and m["key"] is None and is_draw(m["val"]) and site_bb(m["val"][3], f) is None
+    if t[0] == "mut" and _is_empty_ctor(t[1]):
+        ops = [o for o in t[2] if o[1] != "reserve"]
+        if len(ops) != 1 or ops[0][1] != "push" or len(ops[0][2]) != 1 or not is_draw(ops[0][2][0]):
+            return False
+        pb, db = site_bb(ops[0][3], f), site_bb(ops[0][2][0][3], f)
+        inner = [lp for lp in f.loops() if pb is not None and pb in lp["body"]]
+        if not inner or db is None:
+            return False
+        lp = min(inner, key=lambda l: len(l["body"]))
+        return db in lp["body"]          # drawn in the same (innermost) loop body that pushes it
+    return False
+
+
 def per_coefficient_draw(ctx):
     P = ctx.prog
     f = ctx.anchor(CORE + "keys::generate_coefficients")
     if f:
         v = FnView.get(P, f)
         rt = v.cx.local(0)
-        rw = [s for s in subterms(rt) if is_call(s, name="repeat_with")]
-        good = len(rw) == 1 and rw[0][2][0][0] == "closure" and rw[0][2][0][2] == (("arg", 2),)
-        if good:
-            cf = P.fns.get(rw[0][2][0][1])
-            ct = TermCx(P, cf).local(0) if cf else None
-            good = ct is not None and is_call(ct, name="random") and ct[2][0] == ("field", ("arg", 1), None, "0")
-        ctx.check(good and adaptor_inventory(f) == {"take": 1}, "DRAW-item", f.key, "one-draw-per-coefficient",
-                  "generate_coefficients must produce each coefficient by its own Field::random(rng) call inside the "
-                  "repeat_with closure (no draw hoisted out, no repetition of one sample)", f.loc)
+        got = draws.normal_form(draws.draw_summary(P, f, {}))
+        count_ok = got == {"Field::random": {"n(arg1)": 1}}
+        ctx.check(count_ok and fresh_draw_elements(P, f, v, rt, 2), "DRAW-item", f.key, "one-draw-per-coefficient",
+                  "generate_coefficients must produce each of its `size` coefficients by its own Field::random(rng) call (no draw "
+                  "hoisted out of the traversal, no repetition of one sample): draws %s" % got, f.loc)
 
 
 def run(ctx):
